@@ -28,6 +28,9 @@ type scripted struct {
 	caps           map[string]*plugintypes.NodeDeployCapacity
 	nilMap         bool // answer with a nil capacity map (as a JSON plugin answering `null` would)
 	failSet        bool // SetNodeResourceUsage fails (another plugin failing in cobalt's commit)
+	delay          time.Duration  // GetNodesDeployCapacity answers only after this delay (a slow plugin; it does not watch ctx)
+	counting       bool           // keeps a per-node usage counter (number of live workloads it was told about)
+	count          map[string]int // node -> counter
 }
 
 var errScripted = errors.New("scripted plugin failure")
@@ -61,7 +64,41 @@ func (s *scripted) CalculateRemap(_ context.Context, _ string, ws map[string]plu
 }
 
 func (s *scripted) CalculateRealloc(context.Context, string, plugintypes.WorkloadResource, plugintypes.WorkloadResourceRequest) (*plugintypes.CalculateReallocResponse, error) {
+	if s.counting { // the workload stays one workload: delta 0
+		return &plugintypes.CalculateReallocResponse{DeltaResource: plugintypes.WorkloadResource{"n": 0}, WorkloadResource: plugintypes.WorkloadResource{"n": 1}}, nil
+	}
 	return &plugintypes.CalculateReallocResponse{}, nil
+}
+
+func toInt(v any) int {
+	switch x := v.(type) {
+	case int:
+		return x
+	case int64:
+		return int(x)
+	case float64:
+		return int(x)
+	}
+	return 0
+}
+
+func (s *scripted) getCount(node string) int {
+	s.mu.Lock()
+	defer s.mu.Unlock()
+	return s.count[node]
+}
+
+func (s *scripted) setCount(node string, v int, del bool) {
+	s.mu.Lock()
+	defer s.mu.Unlock()
+	if s.count == nil {
+		s.count = map[string]int{}
+	}
+	if del {
+		delete(s.count, node)
+	} else {
+		s.count[node] = v
+	}
 }
 
 func (s *scripted) Name() string { return s.name }
@@ -73,6 +110,9 @@ func (s *scripted) set(caps map[string]*plugintypes.NodeDeployCapacity) {
 }
 
 func (s *scripted) GetNodesDeployCapacity(_ context.Context, nodenames []string, _ plugintypes.WorkloadResourceRequest) (*plugintypes.GetNodesDeployCapacityResponse, error) {
+	if s.delay > 0 {
+		time.Sleep(s.delay)
+	}
 	s.mu.Lock()
 	defer s.mu.Unlock()
 	if s.nilMap {
@@ -104,18 +144,43 @@ func (s *scripted) CalculateDeploy(_ context.Context, nodename string, deployCou
 	resp := &plugintypes.CalculateDeployResponse{}
 	for i := 0; i < deployCount; i++ {
 		resp.EnginesParams = append(resp.EnginesParams, plugintypes.EngineParams{})
-		resp.WorkloadsResource = append(resp.WorkloadsResource, plugintypes.WorkloadResource{})
+		w := plugintypes.WorkloadResource{}
+		if s.counting {
+			w["n"] = 1
+		}
+		resp.WorkloadsResource = append(resp.WorkloadsResource, w)
 	}
 	return resp, nil
 }
 
-func (s *scripted) SetNodeResourceUsage(context.Context, string, plugintypes.NodeResource, plugintypes.NodeResourceRequest, []plugintypes.WorkloadResource, bool, bool) (*plugintypes.SetNodeResourceUsageResponse, error) {
+func (s *scripted) SetNodeResourceUsage(_ context.Context, node string, resource plugintypes.NodeResource, _ plugintypes.NodeResourceRequest, ws []plugintypes.WorkloadResource, delta bool, incr bool) (*plugintypes.SetNodeResourceUsageResponse, error) {
 	s.mu.Lock()
 	defer s.mu.Unlock()
 	if s.failSet {
 		return nil, errScripted
 	}
-	return &plugintypes.SetNodeResourceUsageResponse{}, nil
+	if !s.counting {
+		return &plugintypes.SetNodeResourceUsageResponse{}, nil
+	}
+	if s.count == nil {
+		s.count = map[string]int{}
+	}
+	before := s.count[node]
+	switch {
+	case !delta && resource != nil: // absolute rewrite (cobalt's rollback)
+		s.count[node] = toInt(resource["n"])
+	default:
+		d := 0
+		for _, w := range ws {
+			d += toInt(w["n"])
+		}
+		if !incr {
+			d = -d
+		}
+		s.count[node] += d
+	}
+	return &plugintypes.SetNodeResourceUsageResponse{
+		Before: plugintypes.NodeResource{"n": before}, After: plugintypes.NodeResource{"n": s.count[node]}}, nil
 }
 
 // ---------------------------------------------------------------------------- fixture
@@ -126,6 +191,8 @@ type fixture struct {
 	mgr  *cobalt.Manager // cpumem only
 	x0   *scripted       // second plugin of mgr2: accepts everything, fails its SetNodeResourceUsage on demand
 	mgr2 *cobalt.Manager // cpumem + x0
+	y0   *scripted       // counting plugin: its usage is the number of live workloads it was told about; never fails
+	mgrs []*cobalt.Manager // cpumem, x0, y0 in four configured orders (cobalt's call walks the plugins in this order)
 	cfg  coretypes.Config
 }
 
@@ -144,6 +211,12 @@ func newFixture(t *testing.T) *fixture {
 	mgr.AddPlugins(cm)
 	f := &fixture{ctx: ctx, cm: cm, mgr: mgr, cfg: cfg, x0: &scripted{name: "x0"}}
 	f.mgr2 = f.managerWith(f.x0)
+	f.y0 = &scripted{name: "y0", counting: true}
+	for _, order := range [][]plugins.Plugin{{cm, f.x0, f.y0}, {f.x0, cm, f.y0}, {f.y0, f.x0, cm}, {f.x0, f.y0, cm}} {
+		m, _ := cobalt.New(cfg)
+		m.AddPlugins(order...)
+		f.mgrs = append(f.mgrs, m)
+	}
 	return f
 }
 
